@@ -7,6 +7,7 @@ package crash
 
 import (
 	"crypto/sha256"
+	"encoding/json"
 	"fmt"
 	"os"
 	"path/filepath"
@@ -194,31 +195,29 @@ func truncate(s string, n int) string {
 	return s
 }
 
-// Pending records the case that is about to be executed in a file that the driver keeps when the worker
-// dies or hangs (poison guard: a panic inside a bbolt transaction can block the whole worker).
+// Pending is the journal of a worker: the case that is about to be executed is written to a file in the run
+// directory BEFORE the call, so that a supervisor (or the driver's logs) knows what killed or blocked the process.
 type Pending struct{ path string }
 
-func NewPending() *Pending {
-	dir := os.Getenv("VERIF_RUNDIR")
-	if dir == "" {
-		return &Pending{}
-	}
-	shard := strings.ReplaceAll(os.Getenv("VERIF_SHARD"), "/", "of")
-	return &Pending{path: filepath.Join(dir, fmt.Sprintf("log_pending_%s_%s.txt", os.Getenv("VERIF_PART"), shard))}
-}
+func NewPending() *Pending { return &Pending{path: stateFile("pending")} }
 
-func (p *Pending) Set(entry, desc string, input []byte) {
+// Journal records the case at position seq as pending.
+func (p *Pending) Journal(seq int, entry, desc string, input []byte) {
 	if p.path == "" {
 		return
 	}
-	if len(input) > 8192 {
-		input = input[:8192]
+	if len(input) > 2048 {
+		input = input[:2048]
 	}
-	_ = os.WriteFile(p.path, []byte(entry+"\n"+desc+"\n"+string(input)+"\n"), 0o644)
+	b, _ := json.Marshal(journalEntry{Seq: seq, Entry: entry, Desc: desc, Input: string(input)})
+	_ = os.WriteFile(p.path, b, 0o644)
 }
 
-func (p *Pending) Clear() {
-	if p.path != "" {
-		_ = os.Remove(p.path)
+// Done marks an orderly end of the sweep.
+func (p *Pending) Done() {
+	if p.path == "" {
+		return
 	}
+	b, _ := json.Marshal(journalEntry{Seq: -1, Done: true})
+	_ = os.WriteFile(p.path, b, 0o644)
 }
